@@ -431,7 +431,10 @@ def generate_bufr_message(decoder, s, info_only=False, continue_on_error=False, 
                     s[idx_start:], start_signature=None, info_only=True, *args, **kwargs
                 )
                 matched = sr.run(bufr_message)
-                if matched and not info_only:
+                # A table definition message takes effect even when it is filtered out,
+                # so it needs to be fully decoded just like a matched message.
+                if not info_only and (
+                        matched or bufr_message.data_category.value == DATA_CATEGORY_DEFINE_BUFR_TABLES):
                     bufr_message = decoder.process(
                         s[idx_start:], start_signature=None, info_only=False, *args, **kwargs
                     )
